@@ -318,7 +318,17 @@ func TestC08StateMachine(t *testing.T) {
 				w.note("propose(e%d,leader=%s,j=%d,r=%d,l=%d,t=%d)->%v", w.completedEpoch+1, short(p.leader), len(p.joining), len(p.remaining), len(p.leaving), p.thr, errS(err))
 				check("valid proposal", p.leader, err)
 				if err != nil && strings.Contains(err.Error(), "panic contained") {
-					fail("C08/proposal-panics-on-node-in-left-state", fmt.Sprintf("a valid proposal for epoch %d made a recipient panic (contained): %v", w.completedEpoch+1, err))
+					// the listed finding concerns participants whose record is in state Left; a panic with no such participant is something else
+					key := "C08/valid-proposal-panics"
+					if w.lastTerminal != "" {
+						key += "-after-" + w.lastTerminal
+					}
+					for _, n := range append(append(append([]*Node{}, p.joining...), p.remaining...), p.leaving...) {
+						if c, _ := n.Current(); c != nil && c.State == dkg.Left {
+							key = "C08/proposal-panics-on-node-in-left-state"
+						}
+					}
+					fail(key, fmt.Sprintf("a valid proposal for epoch %d made a recipient panic (contained): %v", w.completedEpoch+1, err))
 					w.dead = true
 					return
 				}
@@ -347,7 +357,7 @@ func TestC08StateMachine(t *testing.T) {
 			"invalidProposalCommand": func(t *rapid.T) {
 				// operator asks for something the protocol must refuse
 				n := w.nodes[nodeGen.Draw(t, "node")]
-				kind := rapid.IntRange(0, 4).Draw(t, "kind")
+				kind := rapid.IntRange(0, 5).Draw(t, "kind")
 				snapshot()
 				var err error
 				var what string
@@ -386,6 +396,17 @@ func TestC08StateMachine(t *testing.T) {
 						err = mem[0].Reshare(len(mem)/2+1, 1, timeoutIn(), nil, partsOf(mem[:len(mem)-1]), nil)
 						n = mem[0]
 					}
+				case 5:
+					// the lists have the right length, but one current member is replaced by a second entry of another
+					what = "duplicate-entry-hides-dropped-member"
+					if w.completedEpoch == 0 || len(w.memberNodes()) < 3 {
+						what = "skip"
+					} else {
+						mem := w.memberNodes()
+						lst := append(append([]*Node{}, mem[:len(mem)-1]...), mem[len(mem)-2])
+						err = mem[0].Reshare(len(mem)/2+1, 1, timeoutIn(), nil, partsOf(lst), nil)
+						n = mem[0]
+					}
 				case 4:
 					what = "unknown-scheme"
 					if w.completedEpoch != 0 {
@@ -417,11 +438,15 @@ func TestC08StateMachine(t *testing.T) {
 				if !ok {
 					t.Skip("no leader available")
 				}
-				kind := rapid.IntRange(0, 7).Draw(t, "class")
-				names := []string{"stale-epoch", "epoch+2", "threshold-below-minimum", "threshold-above-n", "expired-timeout", "changed-genesis-time", "changed-genesis-seed", "wrong-beacon-id"}
+				kind := rapid.IntRange(0, 9).Draw(t, "class")
+				names := []string{"stale-epoch", "epoch+2", "threshold-below-minimum", "threshold-above-n", "expired-timeout", "changed-genesis-time", "changed-genesis-seed", "wrong-beacon-id",
+					"member-dropped", "duplicate-entry-hides-dropped-member"}
 				what := names[kind]
-				if w.completedEpoch == 0 && (kind == 0 || kind == 5 || kind == 6) {
+				if w.completedEpoch == 0 && (kind == 0 || kind == 5 || kind == 6 || kind >= 8) {
 					t.Skip("needs a completed epoch")
+				}
+				if kind >= 8 && len(p.remaining) < 3 {
+					t.Skip("needs three remaining members")
 				}
 				terms := &pdkg.ProposalTerms{BeaconID: "c08", Epoch: w.completedEpoch + 1, Leader: p.leader.Part, Threshold: uint32(p.thr), Timeout: timestamppb.New(timeoutIn()),
 					CatchupPeriodSeconds: 1, BeaconPeriodSeconds: 30, SchemeID: w.scheme, GenesisTime: timestamppb.New(time.Now().Add(100 * time.Second)),
@@ -450,6 +475,12 @@ func TestC08StateMachine(t *testing.T) {
 					terms.GenesisSeed = flip(terms.GenesisSeed)
 				case 7:
 					terms.BeaconID = "other"
+				case 8:
+					// a current member is neither remaining nor leaving
+					terms.Remaining = terms.Remaining[:len(terms.Remaining)-1]
+				case 9:
+					// the same, hidden behind a second entry of another member so that the list lengths still add up
+					terms.Remaining = append(terms.Remaining[:len(terms.Remaining)-1:len(terms.Remaining)-1], terms.Remaining[len(terms.Remaining)-2])
 				}
 				pkt := &pdkg.GossipPacket{Packet: &pdkg.GossipPacket_Proposal{Proposal: terms}}
 				pkt.Metadata = signAs(p.leader.Pair, "c08", pkt, terms, p.leader.Addr)
@@ -461,7 +492,7 @@ func TestC08StateMachine(t *testing.T) {
 					}
 					isMember := w.members[n.Addr]
 					// classes that only an existing member can detect are not required of outsiders
-					if !isMember && (kind == 0 || kind == 1 || kind == 5 || kind == 6) {
+					if !isMember && (kind == 0 || kind == 1 || kind == 5 || kind == 6 || kind >= 8) {
 						continue
 					}
 					if err := deliver(n, proto.Clone(pkt).(*pdkg.GossipPacket)); err == nil {
@@ -595,6 +626,62 @@ func TestC08StateMachine(t *testing.T) {
 					flags["partial-completion"] = true
 				}
 			},
+		}
+		actions["failExecution"] = func(t *rapid.T) {
+			if !allowExec || !w.attemptOpen || flags["failure"] {
+				t.Skip("no (further) failed execution in this case")
+			}
+			// everybody does its part and the leader executes, but no DKG bundle gets through: the execution fails on every node
+			for _, n := range cur.remaining {
+				if n != cur.leader {
+					_ = n.Accept()
+				}
+			}
+			gf := w.lastGroupTOML()
+			for _, n := range cur.joining {
+				if n != cur.leader {
+					_ = n.Join(gf)
+				}
+			}
+			w.quiesce()
+			snapshot()
+			w.bus.SetBlock(func(m *Msg) bool { return strings.HasPrefix(m.Kind, "dkg:") })
+			err := cur.leader.Execute()
+			w.note("execute(%s)+cut->%v", short(cur.leader), errS(err))
+			if err != nil {
+				w.bus.SetBlock(nil)
+				check("execute", cur.leader, err)
+				fail("C08/execute-refused", fmt.Sprintf("the leader's execute of a fully accepted proposal was refused: %v", err))
+				return
+			}
+			members := append(append([]*Node{}, cur.remaining...), cur.joining...)
+			deadline := time.Now().Add(40 * time.Second)
+			for {
+				done := 0
+				for _, n := range members {
+					if c, _ := n.Current(); c != nil && (c.State == dkg.Failed || c.State == dkg.TimedOut || c.State == dkg.Complete) {
+						done++
+					}
+				}
+				if done == len(members) || time.Now().After(deadline) {
+					w.note("terminal=%d/%d", done, len(members))
+					break
+				}
+				time.Sleep(100 * time.Millisecond)
+			}
+			w.bus.SetBlock(nil)
+			check("execution", nil, nil)
+			for _, n := range members {
+				if c, _ := n.Current(); c == nil || (c.State != dkg.Failed && c.State != dkg.TimedOut) {
+					// not everybody reached a terminal failure state in time (or somebody completed): mixed state, the model stops
+					w.dead = true
+					flags["partial-failure"] = true
+					return
+				}
+			}
+			w.attemptOpen = false
+			w.lastTerminal = "failure"
+			flags["failure"] = true
 		}
 		actions["idle"] = func(t *rapid.T) {}
 		for name, f := range actions {
